@@ -141,6 +141,9 @@ impl Out {
     }
     /// Start a case and reset the stream's state with the case arguments.
     pub fn begin<S: Stream + ?Sized>(&mut self, s: &mut S, args: &str) {
+        if std::env::var("MVH_TRACE").is_ok() {
+            eprintln!("mvh: case {} after {} ops: {args}", self.cases, self.ops.len());
+        }
         self.case(args);
         let toks: Vec<&str> = args.split(' ').filter(|t| !t.is_empty()).collect();
         s.reset(&toks, self);
